@@ -46,6 +46,8 @@ def check(repo, res, tier):
     res.rule('C01.N4', 'a machine is returned to a free pool only under ret.triggered, ret = handle of this task\'s do_work')
     res.rule('C01.N5', 'each hazard {occupied, ingest, foreign reservation, duplicate in round} is stopped by the '
                        'scheduler guard or by the cluster check (skip or error)')
+    res.rule('C01.N6', 'adopted C02.P2 (a machine is in exactly one pool, so "not in a free pool" means busy) and C06.W2 '
+                       '(a task holds its machine for exactly as long as it executes)')
     res.assumptions += ['pool disjointness (established by C02.P2) is used inside the world analysis',
                         'SimPy: a spawned process runs its first segment before any other process\'s timeout (E7)']
     res.extra['simpy_witness'] = witness()
@@ -54,6 +56,10 @@ def check(repo, res, tier):
     n2_n4(repo, res, canon, logic, us)
     n3(repo, res, canon, logic)
     n5(repo, res, canon, logic)
+    from . import c02, c06
+    from .common import borrow
+    borrow(repo, res, tier, c02, {'C02.P2'}, 'C01.N6')
+    borrow(repo, res, tier, c06, {'C06.W2'}, 'C01.N6')
 
 
 def n1(repo, res):
